@@ -4,7 +4,7 @@
    the regenerated destructor inventory (coq/InvGenerated.v) pins the set of destructors that can throw.
    Allocation failure, stream faults, leaks: observed by harness/drv_fault.cpp, not proved. *)
 From Coq Require Import NArith String List Bool.
-From BS Require Import InvSpec InvModel InvGenerated InvExn InvDtors.
+From BS Require Import InvSpec InvModel InvGenerated InvExn InvComplete InvDtors.
 Import ListNotations.
 
 (* full-strength propagation: if no destructor on the unwinding path can throw, an exception thrown by any action
@@ -56,6 +56,22 @@ Theorem T_C20_csv_outside : forall widths,
   (uniform widths = false -> csv_run widths = Terminate).
 Proof. exact csv_terminates_iff_ragged. Qed.
 Print Assumptions T_C20_csv_outside.
+
+(* MsgPack, the other side: a complete document never reaches the throwing path.  Every map of fewer than 16 members
+   with fixstr / fixint keys and fixint values, followed by anything, loads and stores every member *)
+Theorem T_C20_msgpack_complete_doc_ok : forall pairs rest,
+  length pairs < 16 -> Forall pair_ok pairs ->
+  exists s, mp_run (enc_doc pairs ++ rest) = Ok s /\ mp_loaded s = length pairs /\ mp_unmodelled s = false.
+Proof. exact mp_complete_doc_ok. Qed.
+Print Assumptions T_C20_msgpack_complete_doc_ok.
+
+Example T_C20_msgpack_complete_doc_example :
+  let pairs := [(KStr [0x61; 0x62]%N, 5%N); (KInt 7%N, 0xFF%N); (KStr [], 0%N)] in
+  length pairs < 16 /\ Forall pair_ok pairs /\
+  enc_doc pairs ++ [0xC1%N] = [0x83; 0xA2; 0x61; 0x62; 5; 7; 0xFF; 0xA0; 0; 0xC1]%N /\
+  mp_answer (enc_doc pairs ++ [7%N]) = AOk.
+Proof. exact mp_complete_doc_example. Qed.
+Print Assumptions T_C20_msgpack_complete_doc_example.
 
 (* MsgPack: with the scope destructor made non-throwing (errors of the clean-up skip swallowed) every failure of
    every input is an exception, and it is the exception the body threw *)
